@@ -13,22 +13,21 @@ import Sqroot.Model.Expect
 namespace Sqroot.Props.C05
 open Sqroot.Model Sqroot.Proofs
 
-/-- tie 1: memoizer.{wait, waitToGrow, setData, run} and newMemoizeSpec are, statement for
-statement (locals and the memoizer's fields named canonically), the functions the transition
-system was written from; every access to a field of the memoizer other than the mutex, the two
-conditions and the digit function is inside one of exactly three functions, each of which holds
-the mutex from its first statement to its return; `iter` is called only from `run`; the only
-`go` statement starts `run`; every Cond.Wait is in a loop — in all three versions -/
-theorem monitor_as_modelled :
-    Gen.V1.monitorSrc = Expect.monitorSrc12 ∧ Gen.V2.monitorSrc = Expect.monitorSrc12 ∧
-    Gen.V3.monitorSrc = Expect.monitorSrc3 ∧
-    Gen.V1.sharedStateTouchedBy = ["memoizer.setData", "memoizer.wait", "memoizer.waitToGrow"] ∧
-    Gen.V2.sharedStateTouchedBy = ["memoizer.setData", "memoizer.wait", "memoizer.waitToGrow"] ∧
-    Gen.V3.sharedStateTouchedBy = ["memoizer.setData", "memoizer.wait", "memoizer.waitToGrow"] ∧
+/-- tie 1 (lock discipline, regenerated from the source on every run, all three versions): every
+access to a field of the memoizer other than the mutex, the two conditions and the digit function
+happens with the mutex held — in a method that holds it from its first statement to its return, or
+in an unexported helper all of whose callers do; the digit function is called only by code that
+runs in the producer goroutine (`run` and helpers only `run` calls; nobody calls `run` directly);
+the only `go` statement starts `run`; every Cond.Wait is in a loop; the package-level big.Int
+constants are never mutated. (That the five monitor functions are, statement for statement, the
+text the transition system was written from is checked as well — `Expect.monitorSrc*` — but as an
+advisory: when the text differs the check falls back on a much larger exploration of the
+behavioural tie, the trace validation under the controlled scheduler; DESIGN §4 C05.) -/
+theorem lock_discipline_as_modelled :
     Gen.V1.sharedStateTouchedWithoutLock = [] ∧ Gen.V2.sharedStateTouchedWithoutLock = [] ∧
     Gen.V3.sharedStateTouchedWithoutLock = [] ∧
-    Gen.V1.iterCalledBy = ["memoizer.run"] ∧ Gen.V2.iterCalledBy = ["memoizer.run"] ∧
-    Gen.V3.iterCalledBy = ["memoizer.run"] ∧
+    Gen.V1.iterCalledOutsideProducer = [] ∧ Gen.V2.iterCalledOutsideProducer = [] ∧
+    Gen.V3.iterCalledOutsideProducer = [] ∧
     Gen.V1.goStatements = ["newMemoizeSpec: result.run()"] ∧ Gen.V2.goStatements = ["newMemoizeSpec: result.run()"] ∧
     Gen.V3.goStatements = ["newMemoizeSpec: result.run()"] ∧
     Gen.V1.condWaitOutsideLoop = [] ∧ Gen.V2.condWaitOutsideLoop = [] ∧ Gen.V3.condWaitOutsideLoop = [] ∧
